@@ -525,6 +525,16 @@ def oracle_mill(out: Outcome, s, mill, x, E, fld, res):
                 ok, err = close(mill.align_vector(x[perm[0]] - x[perm[1]]), xa[0] - xa[1])
                 if not ok:
                     V("oracle:vector_covariance", err, 0.0, "align_vector(x_a - x_b) != x'_a' - x'_b'")
+            # several attached vectors handed over at once, one per ROW (the commented-out `alvec[:, 1]` of the method shows the
+            # layout it is written for): row k of the answer is the single-vector answer for row k — for every K, K = 3 included
+            for K in (1, 2, 3, 4):
+                stack = np.array([mu * (k + 1.0) + 0.25 * k * np.array([1.0, -2.0, 0.5]) for k in range(K)])
+                got = np.asarray(mill.align_vector(stack))
+                want = np.array([np.asarray(mill.align_vector(stack[k])) for k in range(K)])
+                ok, err = close(got, want) if got.shape == want.shape else (False, float("inf"))
+                if not ok:
+                    V("oracle:vector_covariance", err, 0.0, f"align_vector on a ({K},3) stack of row vectors is not the row-wise single-vector result")
+                    break
         except Exception as e:  # noqa
             V("oracle:raises", "err " + err_class(e), "array", "align_vector raised")
         try:
